@@ -40,7 +40,7 @@ LEVEL_NOTE = ('Trusted: the scheduler (only one managed thread runs at a time), 
               'no-progress deadline with all gates open (C leg).')
 ASSUMPTIONS = ['GIL build of CPython 3.12', 'simulated lock models cffi.lock.allocate_lock (non-reentrant mutex)']
 BUDGET = {'quick': 1600, 'thorough': 160000}
-TIME = {'quick': 30, 'thorough': 1500}
+TIME = {'quick': 30, 'thorough': 900}
 MIN_PER_SHARD = 50
 
 
